@@ -15,6 +15,15 @@
  * to UTLS; in this unit it IS the ghost record `struct xv_sub` (typestate, call records), so that the typestate travels with
  * the object and pointer identity needs no table.
  * Attached to the REAL (static) functions by redeclaration after the TU has been #included.
+ *
+ * The SHAPE of the socket a function is given (which leg of a connection is the live one; which sub-sockets exist at close;
+ * connection or server for finish/update) is a -D of the job, one job (variant) per shape: clauses about "the live leg" would
+ * otherwise go through a pointer that is NULL in the other shape, which made the formulas ten times larger.
+ *   UT_LEG_TLS                      the live leg of the connection is the TLS one (default: UX)
+ *   UT_T_SERVER                     finish/update on a server socket (default: connection, leg as above)
+ *   UT_SHAPE_UX / _TLS / _NULL      close/cleanup/deinit: only that sub-socket / none exists (default: both)
+ *   UT_SUB_INIT_MAY_FAIL            xcm_tp_socket_init may return -1 (no init of the tree does)
+ *   UT_GETSOCKNAME_MAY_FAIL         xcm_local_addr may return NULL on a bound server
  */
 #ifndef XV_UTLS_H
 #define XV_UTLS_H
@@ -54,7 +63,7 @@ struct xv_sub {
 #define SUB_SIZE (sizeof(struct xcm_socket) + sizeof(struct xv_sub))
 
 /* accounting over ALL sub-sockets of the process (one object, so that it is ONE assigns target of the ladders: DFCC checks every
- * callee target against every caller target, and utls_server went from 1.8M to ... variables by this alone) */
+ * callee target against every caller target) */
 struct xv_acc {
     long created;           /* xcm_tp_socket_create calls                                                              */
     long destroyed;         /* xcm_tp_socket_destroy calls on a sub-socket                                              */
@@ -80,7 +89,7 @@ uint8_t xv_io_c;            /* byte at offset xv_j of the message the sub-socket
 long xv_cnt_calls; int64_t xv_cnt_ret; int xv_cnt_arg; struct xcm_socket *xv_cnt_sock;
 long xv_mm_calls; size_t xv_mm_ret; struct xcm_socket *xv_mm_sock;
 
-/* never assigned: shape of the socket the function under proof is given */
+/* never assigned */
 struct xcm_tp_proto *xv_proto_ux, *xv_proto_tls;    /* the registered "ux" and "tls" protocols                          */
 
 /* addresses (xcm_addr.c, common_tp.c: other modules); one object for the same reason */
@@ -107,7 +116,6 @@ static inline void xv_utls_havoc(void)
     xv_io_len = nondet_size_t(); xv_io_ret = nondet_int(); xv_io_errno = nondet_int(); xv_io_c = nondet_uchar();
     xv_cnt_calls = nondet_long(); xv_cnt_ret = nondet_long(); xv_cnt_arg = nondet_int(); xv_cnt_sock = nondet_voidp();
     xv_mm_calls = nondet_long(); xv_mm_ret = nondet_size_t(); xv_mm_sock = nondet_voidp();
-     
     xv_proto_ux = nondet_voidp(); xv_proto_tls = nondet_voidp();
     xv_addr_ptr = nondet_voidp(); xv_addr_len = nondet_size_t(); xv_addr_rv = nondet_int(); xv_addr_errno = nondet_int();
     xv_uxaddr_len = nondet_size_t(); xv_uxmake_rv = nondet_int(); xv_uxmake_errno = nondet_int();
@@ -381,6 +389,19 @@ static struct xcm_tp_proto *tls_proto(void)
 __CPROVER_requires(1)
 __CPROVER_assigns()
 __CPROVER_ensures(__CPROVER_return_value == xv_proto_tls)
+;
+
+/* ---- create_sub_socket: create + init; a sub-socket whose init failed is destroyed again (it owes nothing) ------------------- */
+static struct xcm_socket *create_sub_socket(struct xcm_tp_proto *proto, enum xcm_socket_type type, struct xpoll *xpoll, struct xcm_socket *parent)
+__CPROVER_requires((proto == xv_proto_ux || proto == xv_proto_tls) && UT_GHOSTS(0, 0))
+__CPROVER_assigns(xv_errno, UT_ACC_ASSIGNS, xv_init_parent_ux, xv_init_parent_tls)
+/* PO[C08] create_sub_socket.initialised_or_nothing: either a new initialised sub-socket of that protocol, or nothing is left behind */
+__CPROVER_ensures(__CPROVER_return_value != NULL ==> (__CPROVER_is_fresh(__CPROVER_return_value, SUB_SIZE) && \
+                  SUB_FRESH_INIT(__CPROVER_return_value, proto == xv_proto_ux ? XV_K_UX : XV_K_TLS) && UT_ACCOUNT(1, 0, 1, 0)))
+__CPROVER_ensures(__CPROVER_return_value == NULL ==> (UT_ACCOUNT(1, 1, 0, 0) && xv_errno > 0))
+__CPROVER_ensures(__CPROVER_return_value != NULL ==> (__CPROVER_return_value->type == type && __CPROVER_return_value->xpoll == xpoll && \
+                  __CPROVER_return_value->proto == proto && !__CPROVER_return_value->is_blocking && !__CPROVER_return_value->auto_update && \
+                  !__CPROVER_return_value->auto_enable_ctl))
 ;
 
 /* ---- utls_init --------------------------------------------------------------------------------------------------- */
